@@ -32,7 +32,10 @@ impl Axecutor {
         target: u64,
         variant: TraceVariant,
     ) -> Result<(), AxError> {
-        let instr_ip = self.reg_read_64(SupportedRegister::RIP)? - i.len() as u64;
+        // RIP already holds next_ip, which wraps around for an instruction ending at 2^64
+        let instr_ip = self
+            .reg_read_64(SupportedRegister::RIP)?
+            .wrapping_sub(i.len() as u64);
         let mut lvl = 0;
 
         if let Some(last) = self.state.trace.last_mut() {
